@@ -86,7 +86,7 @@ inductive Err
 
 /-- Behaviour switches.  The DEFAULT value of every switch is what the code does now; the other value
     is what a repaired code would do (known findings) or what the code did before a fix was committed
-    (historical switches `f2`, `f16`, default `true`). -/
+    (historical switches `f2`, `f16`, `f33`, default `true`). -/
 structure Toggles where
   /-- F1: also repair the callee's transitive firewall callees when a non-pedantic *query* caller
       takes the Repair slow path (the code does it for `User`/`RepairFirewall` callers only). -/
@@ -104,6 +104,9 @@ structure Toggles where
       discarded with `let _ =` and the fingerprints of a callee that is still computing are compared, so
       a node that has just been found to lie on a cycle is cleaned with its old value. -/
   f16 : Bool := true
+  /-- F33 (HISTORICAL, fixed in /repo by 4685b5a): `check_cyclic_internal` carries a visited set.
+      `false` = the code before the fix: the walk follows a cycle of registered callees forever. -/
+  f33 : Bool := true
   /-- F31: a node that was marked in an SCC while it was being *repaired* (a callee it re-verified
       closed a cycle through it) keeps the callees registered during the repair when it is re-executed
       (the code clears them, and the re-execution is aborted right after its first read because the
@@ -263,11 +266,41 @@ def undoRegister (caller : Caller) (callee : Key) : M Unit := do
   | _ => pure ()
 
 /-- `check_cyclic_internal`: is `target` reachable from `k` through registered callees of computing
-    nodes?  Marks every computing node on a path.  `fuel` bounds the depth (≤ table size). -/
-def checkCyclic : Nat → Key → Key → M Bool
+    nodes?  Marks every computing node on a path.  The walk carries a visited set (4685b5a, finding
+    F33): a computing callee that was visited before is skipped (`return true` of the `iter_sync`
+    closure = next callee), so every computing node is entered at most once — plus once more for the
+    start node, which is not in the set — and the recursion always returns.  `fuel` (table size + 2)
+    only makes the definition structurally recursive; running out of it cannot happen. -/
+def checkCyclicV : Nat → Key → Key → List Key → M (Bool × List Key)
+  | 0, _, _, _ =>
+    throwE (.deadlock "check_cyclic_internal: model fuel exhausted (unreachable with the visited set)")
+  | fuel + 1, k, target, vis => do
+    let s ← get
+    match findComp k s.computing with
+    | none => pure (false, vis)
+    | some comp =>
+      if (lookup target comp.callees).isSome then
+        modifyComp k fun c => { c with inScc := true }
+        pure (true, vis)
+      else
+        let mut found := false
+        let mut vis := vis
+        for (callee, _) in comp.callees do
+          let s ← get
+          if (findComp callee s.computing).isSome then
+            if vis.contains callee then continue
+            vis := callee :: vis
+            let (f, vis') ← checkCyclicV fuel callee target vis
+            vis := vis'
+            found := found || f
+        if found then modifyComp k fun c => { c with inScc := true }
+        pure (found, vis)
+
+/-- `check_cyclic_internal` before 4685b5a (HISTORICAL, `Toggles.f33 = false`): no visited set, no
+    short-circuit; going deeper than the number of computing nodes means a node repeats on the path,
+    so the recursion never returns. -/
+def checkCyclicOld : Nat → Key → Key → M Bool
   | 0, _, _ =>
-    -- the recursion went deeper than the number of computing nodes: a node repeats on the path, so
-    -- the code's recursion (no visited set, no short-circuit) never returns
     throwE (.deadlock "check_cyclic_internal recurses forever: the registered callees of computing queries form a cycle")
   | fuel + 1, k, target => do
     let s ← get
@@ -282,10 +315,18 @@ def checkCyclic : Nat → Key → Key → M Bool
         for (callee, _) in comp.callees do
           let s ← get
           if (findComp callee s.computing).isSome then
-            let f ← checkCyclic fuel callee target
+            let f ← checkCyclicOld fuel callee target
             found := found || f
         if found then modifyComp k fun c => { c with inScc := true }
         pure found
+
+/-- `check_cyclic` (fresh visited set).  The first argument is kept for the call sites: the number
+    of computing nodes + 1. -/
+def checkCyclic (fuel : Nat) (k target : Key) (visitedSet : Bool := true) : M Bool := do
+  if visitedSet then
+    let (f, _) ← checkCyclicV (fuel + 1) k target []
+    pure f
+  else checkCyclicOld fuel k target
 
 -- ------------------------------------------------------------------ order of hash-set walks
 
@@ -403,7 +444,7 @@ def queryLoop (t : Toggles) (p : Program) : Nat → Key → Caller → M QRes
     if (findComp k s.computing).isSome then
       match caller with
       | .query c _ _ =>
-        let cyc ← checkCyclic (s.computing.length + 1) k c
+        let cyc ← checkCyclic (s.computing.length + 1) k c t.f33
         if cyc then
           modifyComp c fun cc => { cc with inScc := true }
           return .cyclic
